@@ -66,7 +66,8 @@ def required_cells(tier):
         cells.append("inc:" + i)
     cells += ["wd:root", "wd:build-inside", "wd:build-outside", "skip:missing/first", "skip:missing/middle", "skip:missing/last",
               "skip:object", "skip:link", "skip:empty-command", "skip:empty-arguments", "skip:blank-command", "relative-I-missing-in-build-dir", "unnamed-file-unattributed",
-              "gcc-confirmed", "class:grid", "class:random", "same-spelling-different-build-dirs", "same-file-spelling-missing-in-one-directory", "forced-include:rel",
+              "gcc-confirmed", "class:grid", "class:random", "same-spelling-different-build-dirs", "same-file-spelling-missing-in-one-directory", "dotdot-after-directory-link:file", "dotdot-after-directory-link:inc",
+              "dotdot-after-directory-link:dir", "dotdot-after-directory-link:pre", "dotdot-after-directory-link:all", "forced-include:rel",
               "forced-include:abs", "forced-include:dots", "search-dir-with-blank:command", "search-dir-with-blank:arguments",
               "header-compiled-on-its-own", "compiled-files-excluded-by-pattern", "skip:missing-long-name", "skip:missing-below-a-file",
               "skip:non-source:hip", "skip:non-source:md", "dependency-generation-options",
@@ -84,6 +85,13 @@ def build(base):
             f.write(text)
     os.makedirs(os.path.join(base, "outbuild"))
     os.symlink("src", os.path.join(root, "lnk"))
+    # directory links whose `..` leads somewhere else than the lexical parent of the link:
+    #   dlnk/..  is src          (dlnk -> src/sub)
+    #   src/ilnk/..  is inc, src/ilnk2/..  is inc2, src/clnk/.. is cfg
+    os.symlink(os.path.join("src", "sub"), os.path.join(root, "dlnk"))
+    for l, t in (("ilnk", "inc"), ("ilnk2", "inc2"), ("clnk", "cfg")):
+        os.makedirs(os.path.join(root, t, "below"))
+        os.symlink(os.path.join("..", t, "below"), os.path.join(root, "src", l))
     return root
 
 
@@ -105,23 +113,32 @@ def make_entry(root, base, src, wd_kind, dstyle, fstyle, istyle, defines=(), for
     wd = {"absent": root, "root": root, "build-inside": os.path.join(root, "build"),
           "build-deep": os.path.join(root, "build", "deep"), "build-outside": os.path.join(base, "outbuild")}[wd_kind]
     srcpath = os.path.join(root, src)
-    if fstyle == "via-link" and src.startswith("src/"):
+    if fstyle == "after-link":
+        assert os.path.dirname(src) == "src"
+        fsp = os.path.join(os.path.relpath(os.path.join(root, "dlnk"), wd), "..", os.path.basename(src))
+    elif fstyle == "via-link" and src.startswith("src/"):
         fsp = os.path.relpath(os.path.join(root, "lnk", src[4:]), wd)
     elif fstyle == "via-link":
         fsp = spell(srcpath, wd, "rel")
     else:
         fsp = spell(srcpath, wd, fstyle)
-    incs = [spell(os.path.join(root, "inc"), wd, istyle), spell(os.path.join(root, "inc2"), wd, "abs" if istyle == "rel" else istyle)]
+    if istyle == "after-link":
+        incs = [os.path.join(os.path.relpath(os.path.join(root, "src", l), wd), "..") for l in ("ilnk", "ilnk2")]
+    else:
+        incs = [spell(os.path.join(root, "inc"), wd, istyle), spell(os.path.join(root, "inc2"), wd, "abs" if istyle == "rel" else istyle)]
     argv = ["gcc"] + ["-D" + d for d in defines]
     argv += ["-I", incs[0], "-I" + incs[1]]
     want_inc = [os.path.join(root, "inc"), os.path.join(root, "inc2")]
     if src == "src/d.c":
-        sp = spell(os.path.join(root, "my inc"), wd, istyle)
+        sp = spell(os.path.join(root, "my inc"), wd, "dots" if istyle == "after-link" else istyle)
         argv += ["-I", sp] if len(defines) % 2 == 0 else ["-I" + sp]
         want_inc.append(os.path.join(root, "my inc"))
     if pre:
         # forced include spelled for a process running in wd (a compiler looks there first)
-        argv += ["-include", spell(os.path.join(root, "cfg", "pre.h"), wd, pre)]
+        if pre == "after-link":
+            argv += ["-include", os.path.join(os.path.relpath(os.path.join(root, "src", "clnk"), wd), "..", "pre.h")]
+        else:
+            argv += ["-include", spell(os.path.join(root, "cfg", "pre.h"), wd, pre)]
     if src.endswith(".h") and not any(x.startswith("-x") for x in extra):
         extra = list(extra) + ["-x", "c-header"]           # a header compiled on its own (precompiled header), as CMake emits
     argv += list(extra)
@@ -130,6 +147,10 @@ def make_entry(root, base, src, wd_kind, dstyle, fstyle, istyle, defines=(), for
     if wd_kind != "absent":
         if dstyle == "abs":
             e["directory"] = wd
+        elif dstyle == "after-link":
+            assert wd.startswith(root)
+            e["directory"] = os.path.normpath(os.path.join("dlnk", "..", "..", os.path.relpath(wd, root))) if False else \
+                os.path.join("dlnk", "..", "..", os.path.relpath(wd, root))
         elif dstyle == "rel":
             e["directory"] = os.path.relpath(wd, root)
         else:
@@ -419,6 +440,19 @@ def run_shard(ctx):
                 ms.reverse()
             ctx.acc.cells["same-spelling-different-build-dirs"] += 1
             check_db(ctx, base, root, es, ms, [], "grid")
+    # `..` after a symbolic link to a directory: the operating system (and so a compiler) climbs from the link's TARGET
+    for src, wd_kind, which, form in itertools.product(["src/a.c", "src/d.c"], ["root", "build-inside", "build-deep", "build-outside"],
+                                                       ["file", "inc", "dir", "pre", "all"], ["arguments", "command"]):
+        if wd_kind == "build-outside" and which in ("dir", "all"):
+            continue
+        idx += 1
+        if not ctx.mine(idx):
+            continue
+        al = lambda k, other: "after-link" if which in (k, "all") else other
+        e, m = make_entry(root, base, src, wd_kind, al("dir", "abs"), al("file", "rel"), al("inc", "rel"), form=form,
+                          pre=al("pre", [None, "rel"][idx % 2]))
+        ctx.acc.cells["dotdot-after-directory-link:" + which] += 1
+        check_db(ctx, base, root, [e], [m], [], "grid")
     # one `file` spelling in two build directories: missing in the first (generated later), present in the second.
     # The warning about the first must not cost the second its place in the configuration (either order, twice each).
     for order in (0, 1, 2):
